@@ -39,13 +39,15 @@ ITER_ASSUME = [
     'R1 enumerate, R2/R10: f32 `*=` routed through f32_mul, an uninterpreted deterministic function (floats are NOT treated as reals)',
     'R8: Iterator::next re-hosted as an inherent method so that it can carry `requires wf(self)`',
     'iterator constructor (FlopExhaustiveEvaluatorIterator::new) establishes wf(): deck = the 49 cards not on the flop in code order, entries = the ranges\' combos with two different cards each -- see constructor obligations in evidence',
-    'spec: legal(c) is phrased as the code\'s materialisation test (no hole card equals turn, river, an earlier player\'s card, or a board card); its equivalence with "all 5+2n cards pairwise distinct" is lemma_legal_distinct',
-    'spec: that the succ-orbit from (0,1,0..) visits every valid position exactly once in lexicographic order follows from lemma_bump_val (+1 in mixed radix) and lemma_tr_succ (immediate successor); the final counting step is on paper',
+    'legal(c) is phrased as the code\'s materialisation test; lemma_legal_distinct (proved, Verus) shows it is exactly "all 5+2n cards of the deal are pairwise different"',
+    'exactly-once: lemma_succ_rank (proved, Verus) shows one step raises cur_rank = position_index * prod(lens) + mixed_radix(idx) by exactly 1, so the orbit never revisits a cursor and reaches the scope end after rank(end) - rank(start) steps; that cur_rank is a bijection between valid cursors and 0..1176*prod(lens) (uniqueness of mixed-radix representation) is standard and NOT mechanised',
 ]
 ITER_SAMPLES = [
     {'obligation': 'FlopExhaustiveEvaluatorIterator::next postcondition', 'clause': 'next_post(*old(self), *final(self), res): Some(sd) ==> exists k. skipped(g,a,k) && legal(adv(a,k)) && is_showdown_of(sd, combos_at, board_at, prob_at) && cursor == succ(adv(a,k)); None ==> some range empty or exists k. skipped(g,a,k) && adv(a,k) at the scope end'},
     {'obligation': 'next: main loop decreases', 'clause': '48 - turn, 49 - river, radix_prod(lens) - radix_val(idx, lens)  (lexicographic)'},
     {'obligation': 'next: built-in', 'clause': 'no u8/usize overflow, every index in bounds, every unwrap on Some'},
+    {'obligation': 'lemma_legal_distinct', 'clause': 'game_ok(g) && cur_ok(g, c) ==> (legal(g, c) <==> distinct_cards(deal_cards(g, c)))'},
+    {'obligation': 'lemma_succ_rank', 'clause': 'cur_rank(succ(c, lens), lens) == cur_rank(c, lens) + 1'},
 ]
 
 CONFIG['C02'] = dict(unit='iter', allowed=ITER_ALLOWED, assumptions=ITER_ASSUME, samples=ITER_SAMPLES,
